@@ -71,7 +71,7 @@ CHECKS['C03'] = {
     'unproved': ['evaluate arms FunctionCall (all functions), TypeConversion, Aggregate', 'parser_tree_converter lowering, projection naming'],
 }
 CHECKS['C09'] = {
-    'verus_units': ['eval', 'follow', 'select', 'engine', 'extract', 'parser', 'executor', 'aggregate', 'aggdispatch', 'aggresult', 'join', 'joinload', 'mapping'],
+    'verus_units': ['eval', 'follow', 'select', 'engine', 'extract', 'parser', 'tokenizer', 'executor', 'aggregate', 'aggdispatch', 'aggresult', 'join', 'joinload', 'mapping'],
     'only_safety': True,
     'clause_prefixes': ['c09'],
     'technique': 'contract-based deductive verification (Verus): absence of arithmetic overflow, division by zero, failed callee preconditions (unwrap, indexing, unreachable!) in every extracted function',
@@ -159,7 +159,7 @@ CHECKS['C02'] = {
 }
 
 CHECKS['C13'] = {
-    'verus_units': ['parser'],
+    'verus_units': ['parser', 'tokenizer'],
     'clause_prefixes': ['c13'],
     'technique': 'contract-based deductive verification (Verus): BinaryOperators::new / get, Parser::get_token_precedence and Parser::parse_unary_operator extracted from /repo; the precedence numbers are read from the source on every run, the functions are proved to use exactly them, and a lemma proves that the numbers realise the standard SQL chain',
     'claim': 'Proof that the precedence table the parser consults (symbolic operators, IS/IN/AND/OR keywords, ::, [ ]) and the operand levels of prefix NOT and unary minus realise OR < AND < NOT < comparisons = IS = IN < + - < * / < unary minus <= :: = [ ] <= qualified names, and that get_token_precedence / parse_unary_operator use exactly these numbers. The body of parse_binary_operator_rhs is verified too, with the textbook invariant of precedence climbing as an in-body obligation: the right operand of an operator of level p is extended only through a recursive call with minimum level p + 1 (tighter operators only, equal levels associate to the left). NOT covered: a full proof that the resulting tree is the reference grouping, the tokenizer, and one-element IN lists - repaired and demonstrated by replays only.',
@@ -170,7 +170,7 @@ CHECKS['C13'] = {
     'unproved': ['reference-grouping correctness of the whole expression parser', 'tokenizer operator fusion', 'parenthesised tuple / one-element IN handling'],
 }
 CHECKS['C14'] = {
-    'verus_units': ['parser'],
+    'verus_units': ['parser', 'tokenizer'],
     'clause_prefixes': ['c14'],
     'technique': 'contract-based deductive verification (Verus) of the parser\'s token cursor (Parser::new/next/current/current_location/create_error/expect_token/expect_and_consume_token, ParserError::new) extracted from /repo',
     'claim': 'Proof (cursor kernel only) that once the first next() succeeded the cursor stays inside the token vector, next() at the end is an error and not a step, current()/current_location() never index out of bounds and every error created carries the location of a real token. "Any text yields a statement or a located error" for the whole tokenizer and recursive-descent parser is NOT decided. TokenLocation::extract_near is not under contract (a bounded Kani harness over 4-character lines did not terminate within 600 s and was dropped).',
